@@ -104,6 +104,93 @@ def main():
     name = 'ContextualProfile-decorated call inside a LineProfiler-decorated one'
     out[name] = scenario(contextual_inside_line)
     classes[name] = 'F-C03e'
+
+    # ---- keyword arguments: "same results and raised exceptions for all arguments" includes every keyword name, in particular the names the
+    # wrappers use for their own parameters and locals (collected from the code objects of the profiler classes, so new helpers are covered)
+    import functools
+    import inspect
+    import types
+
+    def own_names():
+        names = set()
+        for cls in (line_profiler.LineProfiler, kernprof.ContextualProfile) + line_profiler.LineProfiler.__mro__[1:] + kernprof.ContextualProfile.__mro__[1:]:
+            for v in vars(cls).values():
+                f = getattr(v, '__func__', v)
+                todo = [f.__code__] if isinstance(f, types.FunctionType) else []
+                while todo:
+                    c = todo.pop()
+                    names.update(c.co_varnames)
+                    names.update(c.co_freevars)
+                    todo += [k for k in c.co_consts if isinstance(k, types.CodeType)]
+        return sorted(n for n in names if n.isidentifier()) + ['x', 'n']
+
+    def drive(obj):
+        if inspect.isgenerator(obj):
+            return ['gen'] + list(obj)
+        if inspect.iscoroutine(obj):
+            try:
+                obj.send(None)
+            except StopIteration as e:
+                return ['coro', e.value]
+        if inspect.isasyncgen(obj):
+            items = []
+            while True:
+                try:
+                    obj.asend(None).send(None)
+                except StopIteration as e:
+                    items.append(e.value)
+                except StopAsyncIteration:
+                    return ['agen'] + items
+        return obj
+
+    def outcome(fn, *a, **kw):
+        try:
+            return ('ok', repr(drive(fn(*a, **kw))))
+        except Exception as e:   # noqa
+            return ('exc', type(e).__name__, str(e))
+
+    def shapes():
+        def plain(*a, **kw):
+            return ('plain', a, sorted(kw.items()))
+
+        def gen(*a, **kw):
+            yield ('gen', a, sorted(kw.items()))
+
+        async def coro(*a, **kw):
+            return ('coro', a, sorted(kw.items()))
+
+        async def agen(*a, **kw):
+            yield ('agen', a, sorted(kw.items()))
+
+        def fixed(x, n=0):                       # a signature that rejects most keywords: the TypeError must be the function's own
+            return ('fixed', x, n)
+        return {'function': plain, 'generator function': gen, 'coroutine function': coro, 'async generator function': agen, 'fixed signature': fixed,
+                'partial': functools.partial(plain, 7), 'staticmethod': staticmethod(plain), 'classmethod': classmethod(plain)}
+
+    def kw_transparency(pkind):
+        bad = []
+        names = own_names()
+        for sname, orig in shapes().items():
+            prof = line_profiler.LineProfiler() if pkind == 'line' else kernprof.ContextualProfile()
+            wrapped = prof(orig)
+            if isinstance(orig, (staticmethod, classmethod)):
+                H0, H1 = type('H', (), {'m': orig}), type('H', (), {'m': wrapped})
+                c0, c1 = H0.m, H1.m
+            else:
+                c0, c1 = orig, wrapped
+            for nm in names:
+                a, b = outcome(c0, 1, **{nm: 2}), outcome(c1, 1, **{nm: 2})
+                if a != b:
+                    bad.append('%s called with (1, %s=2): undecorated %r, decorated %r' % (sname, nm, a, b))
+            if sname == 'function':
+                for nm in names:
+                    a, b = outcome(orig, 1, **{nm: 2}), outcome(prof.runcall, orig, 1, **{nm: 2})
+                    if a != b:
+                        bad.append('runcall(f, 1, %s=2): direct %r, runcall %r' % (nm, a, b))
+        return 'fine' if not bad else '%d keyword names mishandled, e.g. %s' % (len(bad), '; '.join(bad[:3]))
+    out['keyword arguments of every name reach a LineProfiler-decorated callable'] = scenario(lambda: kw_transparency('line'))
+    out['keyword arguments of every name reach a ContextualProfile-decorated callable'] = scenario(lambda: kw_transparency('ctx'))
+    out['keyword names tried'] = 'ok' if len(own_names()) > 20 else 'too few names collected: %s' % own_names()
     # leave no tool id behind
     import sys as _s
     out['tool id free afterwards'] = 'ok' if _s.monitoring.get_tool(_s.monitoring.PROFILER_ID) is None else 'tool id still held'
